@@ -253,11 +253,21 @@ func runC13(c *Ctx) {
 		s := p.Sym(base).String()
 		switch {
 		case strings.HasPrefix(s, "(*math/big.Int).IsUint64("):
+		case strings.HasPrefix(s, "(math/bits.Mul64(") || strings.Contains(s, " math/bits.Mul64("):
+			// the overflow guard of the 128-bit form (its shape is checked by V7)
 		case strings.Contains(s, "!= nil)") || strings.Contains(s, "== nil)"):
 		default:
 			undecided = append(undecided, fmt.Sprintf("branch condition %s at %s is not a comparison of {0, minimum, Interval/Quantity, Interval, Quantity}", s, p.InstrPos(iff)))
 		}
 		return nil
+	}
+	callTypes := map[ssa.Instruction]map[string]bool{}
+	fl.Call = func(fr *Frame, st string, cc ssa.CallInstruction, deferred bool) (bool, []string) {
+		if callTypes[cc] == nil {
+			callTypes[cc] = map[string]bool{}
+		}
+		callTypes[cc][st] = true
+		return false, nil
 	}
 	fl.Instr = func(fr *Frame, st string, in ssa.Instruction) []string {
 		if bo, ok := in.(*ssa.BinOp); ok && (bo.Op == token.QUO || bo.Op == token.REM) {
@@ -369,7 +379,19 @@ func runC13(c *Ctx) {
 		if k, ok := symConstInt(qS); ok && k == 1 {
 			qOne = true
 		}
-		qFloor := isQuantityFloor(p, qS, recv, minPar)
+		qFloor := isQuantityFloor(p, qS, recv, minPar, func(call *ssa.Call) bool {
+			// Interval > 0 and minimum > 0 in every order type in which the helper is called
+			ts := callTypes[call]
+			if len(ts) == 0 {
+				return false
+			}
+			for t := range ts {
+				if o := parseOtype(t); !(o.I == 'p' && o.rm > o.r0) {
+					return false
+				}
+			}
+			return true
+		})
 		// V7 recognised forms
 		okForm := (it == "v" && qOne) || (it == "m" && qFloor)
 		r.Check(okForm, "V7", key, site, map[bool]string{true: "{floor(I/Q), 1}", false: "{minimum, floor(Q*minimum/I)}"}[it == "v"],
@@ -479,7 +501,7 @@ func shortErr(s string) string {
 
 // isQuantityFloor: qS is result #0 of a helper computing floor(Quantity*minimum/Interval) in big integers,
 // called with (rt.Quantity, minimum, rt.Interval).
-func isQuantityFloor(p *Prog, qS *Sym, recv, minPar *ssa.Parameter) bool {
+func isQuantityFloor(p *Prog, qS *Sym, recv, minPar *ssa.Parameter, positiveAt func(*ssa.Call) bool) bool {
 	if qS.Op != "extract" || qS.Name != "0" || qS.Args[0].Op != "call" {
 		return false
 	}
@@ -488,13 +510,16 @@ func isQuantityFloor(p *Prog, qS *Sym, recv, minPar *ssa.Parameter) bool {
 		return false
 	}
 	callee := p.Callee(call)
-	if callee == nil || !p.IsProduct(callee) || len(call.Call.Args) != 3 {
+	if callee == nil || !p.IsProduct(callee) || len(call.Call.Args) < 2 || len(call.Call.Args) > 3 {
 		return false
 	}
 	argTerm := func(v ssa.Value) string {
 		s := deepStrip(p.Sym(v))
 		if s.V == ssa.Value(minPar) {
 			return "m"
+		}
+		if s.V == ssa.Value(recv) {
+			return "<rate>" // the helper is handed the whole rate (a method on Rate)
 		}
 		if root, path, ok := s.FieldPath(); ok && root.V == ssa.Value(recv) {
 			return path[0]
@@ -514,8 +539,50 @@ func isQuantityFloor(p *Prog, qS *Sym, recv, minPar *ssa.Parameter) bool {
 		if k, isK := symConstInt(s); isK && k == 0 {
 			continue
 		}
-		// Uint64(Quo(_, Mul(_, SetUint64(_, A), SetInt64(_, B)), SetInt64(_, C)))
 		d := deepStrip(s)
+		// 128-bit form: q, _ := bits.Div64(hi, lo, uint64(C)) with hi, lo := bits.Mul64(A, uint64(B)).
+		// The conversions of the signed operands are right only for positive values (checked at the
+		// call site through the order types), and Div64 needs hi < divisor, which is exactly
+		// "the quotient is representable".
+		if d.Op == "extract" && d.Name == "0" && len(d.Args) == 1 && d.Args[0].Op == "call" && d.Args[0].Name == "math/bits.Div64" && len(d.Args[0].Args) == 3 {
+			hi, lo, den := d.Args[0].Args[0], d.Args[0].Args[1], d.Args[0].Args[2]
+			okShape := hi.Op == "extract" && lo.Op == "extract" && hi.Name == "0" && lo.Name == "1" &&
+				hi.Args[0].Op == "call" && hi.Args[0].Name == "math/bits.Mul64" && hi.Args[0].V != nil && hi.Args[0].V == lo.Args[0].V && len(hi.Args[0].Args) == 2
+			if !okShape {
+				return false
+			}
+			leafU := func(x *Sym) string {
+				a := deepStrip(x)
+				if a.Op == "param" {
+					return role[a.Name]
+				}
+				if root, path, okp := a.FieldPath(); okp && len(path) == 1 && root.Op == "param" && role[root.Name] == "<rate>" {
+					return path[0]
+				}
+				return "?"
+			}
+			f1, f2, dn := leafU(hi.Args[0].Args[0]), leafU(hi.Args[0].Args[1]), leafU(den)
+			if !(((f1 == "Quantity" && f2 == "m") || (f1 == "m" && f2 == "Quantity")) && dn == "Interval") {
+				return false
+			}
+			divCall, _ := d.Args[0].V.(*ssa.Call)
+			if divCall == nil {
+				return false
+			}
+			guarded := false
+			for _, e := range InstrDomEdges(divCall) {
+				iff := e.From.Instrs[len(e.From.Instrs)-1].(*ssa.If)
+				cm := p.NormCmp(iff.Cond, e.Succ == 0)
+				if cm != nil && cm.Op == token.LSS && cm.LC == 0 && cm.RC == 0 && cm.L.V != nil && cm.L.V == hi.V && deepStrip(cm.R).String() == den.String() {
+					guarded = true
+				}
+			}
+			if !guarded || positiveAt == nil || !positiveAt(call) {
+				return false
+			}
+			continue
+		}
+		// Uint64(Quo(_, Mul(_, SetUint64(_, A), SetInt64(_, B)), SetInt64(_, C)))
 		if d.Op != "call" || !strings.HasSuffix(d.Name, "big.Int).Uint64") || len(d.Args) != 1 {
 			return false
 		}
@@ -543,6 +610,23 @@ func isQuantityFloor(p *Prog, qS *Sym, recv, minPar *ssa.Parameter) bool {
 				return "?"
 			}
 			a := deepStrip(arg)
+			if a.Op == "field" {
+				// a field of the rate the helper was handed
+				if root, path, okp := a.FieldPath(); okp && len(path) == 1 && root.Op == "param" && role[root.Name] == "<rate>" {
+					if a.V != nil {
+						if b, isB := a.V.Type().Underlying().(*types.Basic); isB && b.Info()&types.IsUnsigned != 0 && !unsignedConv {
+							return "?"
+						}
+						if pt, isP := a.V.Type().Underlying().(*types.Pointer); isP {
+							if b, isB := pt.Elem().Underlying().(*types.Basic); isB && b.Info()&types.IsUnsigned != 0 && !unsignedConv {
+								return "?"
+							}
+						}
+					}
+					return path[0]
+				}
+				return "?"
+			}
 			if a.Op != "param" {
 				return "?"
 			}
